@@ -131,6 +131,18 @@ CHECKS.update({
                 text="Because the specification never inspects a name, every enumerated Layout program has the same verdict under any injective "
                      "renaming; the real generators are run on the same programs with 9 hostile dictionaries and must still create the program, "
                      "give every probe its model outcome (loader, dumper, errors, extras) and never execute supplied text (canary)."),
+    "C17": dict(technique="TLA+ specs Kinds.tla (how each model kind declares a logical field: req / oreq / hasdfl / ctordfl; documented per-kind "
+                          "limitations) + Layout.tla (the one kind-independent semantics); TLC checks KindsUniform on every enumerated program "
+                          "and emits the programs for the total kinds, TypedDict and SQLAlchemy; each is replayed on real NamedTuple / attrs / "
+                          "pydantic / SQLAlchemy / TypedDict (two spellings) classes with the model as the oracle; converters between all pairs",
+                category="model_checking", design_ref="6/C17",
+                note="trusts: vf/kinds.py (class statements per kind, executed from source) and the limitations listed in Kinds.tla; dataclass "
+                     "itself is C03; gamma writes defaults as truthy values or as None / falsy values (chosen by program hash)",
+                text="Uniformity is decided against one oracle: Layout.tla does not know the kind except through the four field attributes of "
+                     "Kinds.tla, KindsUniform (TLC) shows that paths, refusals and probe outcomes coincide across kinds up to absent defaults, "
+                     "and every program x supporting kind is run on the real library in three debug modes (creation verdicts, every probe, "
+                     "every dump object incl. ill-typed ones with refusing field dumpers). Converters between all ordered pairs of kinds copy "
+                     "every field."),
     "C20": dict(technique="TLA+ spec Heap.tla (identity rules Fresh / Disjoint / OnlyAsIsAliases over an abstract heap, TLC sanity model); heap "
                           "observations of pairs of successive equal calls recorded from the real library are judged by the total TLA+ monitor "
                           "Trace_Heap.tla; the Layout.tla programs and the Dump.tla sweep supply the calls",
